@@ -1,6 +1,6 @@
 """C19 - locks exclude, time out, and never report a lock that is not held.
 
-Local: E2 (symx) + baton threads, 2-3 contenders each with its own real FileLock (= its own open file description, so
+Local: E2 (symx) + baton threads, 2-3 contenders each with its own real LocalLockProvider / FileLock (= its own open file description, so
 threads-with-own-handle and processes look the same to FakeOS) at syscall granularity (open / flock / close / unlink /
 stat); a holder may die (the kernel closes its descriptors).
 S3 CAS lock: E2 + baton threads on FakeS3, 2-3 contenders running the real acquire / _try_acquire /
@@ -13,7 +13,7 @@ import threading
 
 import datashard.lock_provider as lpmod
 from datashard.file_lock import FileLock
-from datashard.lock_provider import S3LockProvider, S3PollingLockProvider
+from datashard.lock_provider import LocalLockProvider, S3LockProvider, S3PollingLockProvider
 
 from vf.props.common import is_lock
 from vf.rigs.env import Env
@@ -58,12 +58,13 @@ def local_lock(sp, n=2, K=3, scenario="mutex", timeout=0.05):
             # one long-lived instance (like MetadataManager.lock_provider's) is used once, THEN the process forks: every child inherits a
             # copy of the object and of the parent's descriptor table (same descriptor numbers = same open file descriptions)
             import copy
-            base = FileLock(LOCK, 5.0)
+            base = LocalLockProvider(LOCK, 5.0)
             assert base.acquire() is True
             base.release()
-            locks = [copy.copy(base) for _ in range(n)]
+            locks = [copy.deepcopy(base) for _ in range(n)]
         else:
-            locks = [FileLock(LOCK, timeout if scenario not in ("mutex",) else 5.0) for _ in range(n)]
+            # the table's commit lock on a local table: LocalLockProvider (a FileLock underneath)
+            locks = [LocalLockProvider(LOCK, timeout if scenario not in ("mutex",) else 5.0) for _ in range(n)]
         t_start = {}
         t_end = {}
         sc = Sched(sp, K=K, world=w)
